@@ -150,6 +150,15 @@ namespace K
 def Arena.mapData {τ : Type} (f : τ → τ) (a : Arena τ) : Arena τ :=
   { a with slots := a.slots.map (fun sl => { sl with data := sl.data.map f }) }
 
+/-- mirrors: track/sub.rs::Track::on_start_processing and track/main.rs::MainTrack::on_start_processing as far as
+    the track's sounds go (and the same shape for every other storage): `self.sounds.remove_and_add(finished)`
+    *first*, then `on_start_processing` (`f`) of every resource that is in the storage — so a resource picked up in
+    this callback runs its `on_start_processing` (where it reads its command readers) in this very callback -/
+def Cmd.callbackWith {τ : Type} (test : τ → Bool) (f : τ → τ) (s : Store τ) : Except SFault (Store τ) :=
+  match s.removeAndAdd test with
+  | .error e => .error e
+  | .ok s1 => .ok { s1 with arena := s1.arena.mapData f }
+
 /-- mirrors: the common shape of backend/resources/{clocks,listeners,modulators,mixer}.rs::on_start_processing,
     track/{main,sub}.rs::on_start_processing: `remove_and_add`, then `on_start_processing` of every
     resource in the storage — in the same callback -/
